@@ -25,7 +25,7 @@ import (
 
 func init() {
 	register(&Prop{ID: "C19", Run: runC19, MinNontrivial: 300,
-		Rule:        "cases = (key configuration with an encryption key: 12 subsets of {enc field, enc setter, sign field, sign setter}, RSA/ECDSA signing setter) x SignAuthnRequests x SkipSignatureValidation x issuer/ACS/SLO strings from the value classes x clocks in several zones x validity hours {-5,0,1,24,168,8760,1e5,2.5e6, +-2562047, +-2562048, +-3e6, -5e6, +-1e7, 6e7, MinInt64, MinInt64+1}; oracle on Metadata() and MetadataWithSLO(h): entityID, POST endpoints, flags, validUntil == now.UTC()+7d or +h hours, signing descriptor verifies a message the SP just signed (C13 oracle), encryption descriptor's key decrypts an IdP-signed assertion encrypted to it under each listed method (C11 oracle through ValidateEncodedResponse), xml.Marshal output well-formed and round-trips to equal values; non-trivial = both metadata variants were produced; distinct by parameter tuple; every returned descriptor is scribbled over in place after its case; class bare-signing-key (signer without certificate: a published signing key must be the key that signs); arbitrary IdentityProviderSSO/SLOBinding values; SP clocks in the last week of the certificates' validity; bundle key stores (every published certificate is checked); metadata requested once before the final keys are set; class flaky-key-store (field key stores that fail some calls: metadata may be refused, what is published names the right certificates); configured URLs with credentials, default ports, IPv6 / IDN hosts, dot segments",
+		Rule:        "cases = (key configuration with an encryption key: 12 subsets of {enc field, enc setter, sign field, sign setter}, RSA/ECDSA signing setter) x SignAuthnRequests x SkipSignatureValidation x issuer/ACS/SLO strings from the value classes x clocks in several zones x validity hours {-5,0,1,24,168,8760,1e5,2.5e6, +-2562047, +-2562048, +-3e6, -5e6, +-1e7, 6e7, MinInt64, MinInt64+1}; oracle on Metadata() and MetadataWithSLO(h): entityID, POST endpoints, flags, validUntil == now.UTC()+7d or +h hours, signing descriptor verifies a message the SP just signed (C13 oracle), encryption descriptor's key decrypts an IdP-signed assertion encrypted to it under each listed method (C11 oracle through ValidateEncodedResponse), xml.Marshal output well-formed and round-trips to equal values; non-trivial = both metadata variants were produced; distinct by parameter tuple; every returned descriptor is scribbled over in place after its case; class bare-signing-key (signer without certificate: a published signing key must be the key that signs); arbitrary IdentityProviderSSO/SLOBinding values; SP clocks in the last week of the certificates' validity; bundle key stores (every published certificate is checked); metadata requested once before the final keys are set; class keystore-rotated-in-place (the pair inside a *KeyStore handed to a setter is replaced afterwards: metadata names the pair in use); class flaky-key-store (field key stores that fail some calls: metadata may be refused, what is published names the right certificates); configured URLs with credentials, default ports, IPv6 / IDN hosts, dot segments",
 		Assumptions: []string{"configurations without any encryption key are outside the domain (Metadata returns an error: the encryption key is documented as required)", "XMLName fields are ignored when comparing the round trip"}})
 }
 
@@ -98,6 +98,7 @@ func runC19(c *mon.Ctx) {
 	base := BaseTime(c.Seed)
 	runC19BareSigner(c, base)
 	runC19FlakyStores(c, base)
+	runC19RotatedKeyStore(c, base)
 	var kcs []KeyCfg
 	for _, k := range AllKeyCfgs() {
 		if k.EncField || k.EncSetter {
@@ -469,6 +470,67 @@ func runC19FlakyStores(c *mon.Ctx, base time.Time) {
 			}
 		}
 		cs.Outcome(fmt.Sprintf("published:%d", published))
+	}
+}
+
+// runC19RotatedKeyStore: the application rotates the key pair inside the *KeyStore object it handed to a setter (the
+// provider keeps the pointer and signs / decrypts with what the object holds now). What is published afterwards is the
+// certificate of the pair in use, not the one the object held when the setter was called.
+func runC19RotatedKeyStore(c *mon.Ctx, base time.Time) {
+	n := c.N(60, 1000)
+	for k := 0; k < n; k++ {
+		cs := c.Begin("keystore-rotated-in-place", k)
+		if cs == nil {
+			continue
+		}
+		r := cs.Rand()
+		sp, _, _ := NewSP(base)
+		oldEnc, newEnc := sim.Wide(sim.K("spenc"), base), sim.Wide(sim.K("spenc2"), base)
+		oldSign, newSign := sim.Wide(sim.K("spsign"), base), sim.Wide(sim.K("spsign2"), base)
+		encKS := &saml2.KeyStore{Signer: oldEnc.Key.Signer, Cert: oldEnc.DER}
+		sp.SetSPKeyStore(encKS)
+		var signKS *saml2.KeyStore
+		separate := r.IntN(2) == 0
+		if separate {
+			signKS = &saml2.KeyStore{Signer: oldSign.Key.Signer, Cert: oldSign.DER}
+			sp.SetSPSigningKeyStore(signKS)
+		}
+		if r.IntN(2) == 0 {
+			_, _ = sp.Metadata() // the metadata was fetched once before the rotation
+		}
+		rotateEnc, rotateSign := r.IntN(3) != 0, separate && r.IntN(2) == 0
+		wantEnc, wantSign := oldEnc, oldEnc
+		if separate {
+			wantSign = oldSign
+		}
+		if rotateEnc {
+			encKS.Signer, encKS.Cert = newEnc.Key.Signer, newEnc.DER
+			wantEnc = newEnc
+			if !separate {
+				wantSign = newEnc
+			}
+		}
+		if rotateSign {
+			signKS.Signer, signKS.Cert = newSign.Key.Signer, newSign.DER
+			wantSign = newSign
+		}
+		cs.Desc("separate signing store=%v rotated: encryption=%v signing=%v", separate, rotateEnc, rotateSign)
+		cs.Nontrivial(cs.Description())
+		for vi, f := range []func() (*types.EntityDescriptor, error){sp.Metadata, func() (*types.EntityDescriptor, error) { return sp.MetadataWithSLO(24) }} {
+			m, err := f()
+			name := []string{"Metadata", "MetadataWithSLO"}[vi]
+			if err != nil || m == nil {
+				cs.Violation("metadata-error", "%s after an in-place rotation: %v", name, err)
+				continue
+			}
+			if sc, _, ns := descriptorCert(m, "signing"); ns != 1 || sc != base64.StdEncoding.EncodeToString(wantSign.DER) {
+				cs.Violation("signing-descriptor-"+name, "%s after the key pair inside the KeyStore was replaced: the published signing certificate is not the one of the pair now in use", name)
+			}
+			if ec, _, ne := descriptorCert(m, "encryption"); ne != 1 || ec != base64.StdEncoding.EncodeToString(wantEnc.DER) {
+				cs.Violation("encryption-descriptor-"+name, "%s after the key pair inside the KeyStore was replaced: the published encryption certificate is not the one of the pair now in use", name)
+			}
+		}
+		cs.Outcome("published-the-pair-in-use")
 	}
 }
 
